@@ -123,7 +123,8 @@ def rule_constraint_currents(ck, rid="C18.order"):
     n, c = cc[0]
     b = bind_args(c, repo.fn("ChargingNetwork.constraint_current"))
     sched = canon(fl.expand(b["input_schedule"], n)) if "input_schedule" in b else None
-    cons = fl.expand(b["constraints"], n) if "constraints" in b else None
+    from ..rules import uncopy_deep
+    cons = uncopy_deep(fl.expand(b["constraints"], n)) if "constraints" in b else None
     ck.require(sched == "sim.charging_rates", rid, f, c, ok="computed on the recorded charging rates", bad="constraint currents must be computed on sim.charging_rates", sink="cc-input")
     # requested ids default to all
     ok = cons is not None and set(leaves(cons)) <= {req, "sim.network.constraint_index"} and req in canon(cons)
@@ -214,7 +215,7 @@ def rule_constraint_currents(ck, rid="C18.order"):
             flt = comp[0].generators[0].ifs
             c_ = cmp_norm(flt[0]) if len(flt) == 1 else None
             okf = c_ is not None and c_[1] == "in" and canon(c_[0]) == dotted(comp[0].generators[0].target) and \
-                set(leaves(fl.expand(c_[2], comp[1]))) <= {req, "sim.network.constraint_index"}
+                set(leaves(uncopy_deep(fl.expand(c_[2], comp[1])))) <= {req, "sim.network.constraint_index"}
             ck.require(bool(okf), rid, f, comp[0], ok="filtered by membership in the requested ids", bad="the name filter must test membership in the requested ids", sink="pair-names-filter")
 
 
